@@ -36,8 +36,11 @@ type blockRec struct {
 
 // Sim drives all implementations through the same history.
 type Sim struct {
-	lastDels []u.Hash
-	client   *LightClient // non-nil: maintain a cached proof along the history (C07/C08)
+	// ingestMode: partial map forests are not told to remember additions; instead every block's
+	// deletions are first verified with remember=true in the block's own encoding (C05/C09)
+	ingestMode bool
+	lastDels   []u.Hash
+	client     *LightClient // non-nil: maintain a cached proof along the history (C07/C08)
 	// undoHashes/undoProof, when set before applyBlockData, are what Undo is later called
 	// with for that block (the canonical encoding) instead of the encoding given to Modify
 	undoHashes  []u.Hash
@@ -234,7 +237,22 @@ func (s *Sim) applyBlockData(delIdx []int, delHashes []u.Hash, proof u.Proof, ad
 	for _, in := range s.insts {
 		p := u.Proof{Targets: copyU64(proof.Targets), Proof: copyHashes(proof.Proof)}
 		var merr error
-		r := guard(watchdog, func() { merr = in.acc.Modify(append([]u.Leaf(nil), adds...), copyHashes(delHashes), p) })
+		myAdds := append([]u.Leaf(nil), adds...)
+		if s.ingestMode && in.mp != nil && !in.mp.Full {
+			for i := range myAdds {
+				myAdds[i].Remember = false
+			}
+			if len(delHashes) > 0 {
+				var verr error
+				rv := guard(watchdog, func() {
+					verr = in.mp.Verify(copyHashes(delHashes), u.Proof{Targets: copyU64(proof.Targets), Proof: copyHashes(proof.Proof)}, true)
+				})
+				if rv != "ok" || verr != nil {
+					emit("obs %s modifyfail verify-remember-%s", in.label, rv)
+				}
+			}
+		}
+		r := guard(watchdog, func() { merr = in.acc.Modify(myAdds, copyHashes(delHashes), p) })
 		if r != "ok" || merr != nil {
 			emit("obs %s modifyfail %s", in.label, r)
 		}
